@@ -16,7 +16,9 @@ RULE = ("cases = (tensor of 1-3 ranks, its own rank formats left default or set 
         "format/rhbits/fhbits/cbits/pbits/layout, optional root dict; point prefixes). small scope: every tree "
         "over n coordinates per level x {absent, explicit default, value} leaves x {absent, empty, all-default, "
         "populated} sub-fibers x every format assignment {C,U}^d x declared/estimated shapes, every point prefix; "
-        "lattice: every subset of omitted fields of one rank / omitted rank key / omitted root fields x every "
+        "requery: the same Format object asked again after in-place mutations of the tensor "
+        "(getPayloadRef insertions at present / absent / out-of-shape points, setRoot): every 2-rank tree over 2 "
+        "coordinates x every insertion point; lattice: every subset of omitted fields of one rank / omitted rank key / omitted root fields x every "
         "tensor-format assignment; random: larger trees, widths in {0,1,8,32} and random weights, missing fields, ~4% malformed specs "
         "(compared on accept/reject only). non-trivial = accepted spec, some non-zero width, and at least one "
         "of: depth >= 2, an uncompressed rank, an explicit default, an empty leaf fiber")
@@ -152,6 +154,18 @@ def sample_points(rng, D, tree, n):
     return pts
 
 
+def mut_points(muts):
+    """every prefix of every point an in-place mutation touches"""
+    pts = []
+    for batch in muts or []:
+        for op in batch:
+            if op[0] == "ref":
+                for L in range(1, len(op[1]) + 1):
+                    if op[1][:L] not in pts:
+                        pts.append(op[1][:L])
+    return pts
+
+
 def gen(seed, tier):
     quick = tier == "quick"
     # ---- bounded-exhaustive small scope (seed independent) ----
@@ -207,6 +221,28 @@ def gen(seed, tier):
                         yield {"prop": PROP, "D": D, "dflt": 0, "t": tree, "build": "fromFiber+shape",
                                "shape": [n] * D, "tfmt": list(tf), "spec": {"root": root, "ranks": full["ranks"]},
                                "points": pts}
+    # ---- one Format object asked again after in-place mutations (seed independent) ----
+    # 2 ranks over 2 coordinates: every tree x every single full-length insertion point (present,
+    # absent, beyond the shape) x every format assignment, all prefixes queried before and after;
+    # plus replacing the root by every other tree of a small family (1 and 2 ranks)
+    trees22 = all_trees(2, 2)
+    for ti, tree in enumerate(trees22):
+        for path in itertools.product(range(3), repeat=2):
+            fmts = ["CC", "CU", "UC", "UU"][(ti + path[0] * 3 + path[1]) % 4]
+            v = [5, 0, None][(ti + path[1]) % 3]
+            yield {"prop": PROP, "D": 2, "dflt": 0, "t": tree, "build": "fromFiber+shape", "shape": [3, 3],
+                   "tfmt": None, "spec": weighted_spec(2, fmts), "points": all_points(2, [0, 1, 2]),
+                   "muts": [[["ref", list(path), v]]]}
+    small = {1: all_trees(1, 2), 2: [t for i, t in enumerate(trees22) if i % 9 == 0]}
+    for D, fam in small.items():
+        for tree in fam:
+            for tree2 in fam:
+                if tree2 == tree:
+                    continue
+                fmts = "CU"[(len(tree) + len(tree2)) % 2] * D
+                yield {"prop": PROP, "D": D, "dflt": 0, "t": tree, "build": "fromFiber+shape", "shape": [3] * D,
+                       "tfmt": None, "spec": weighted_spec(D, fmts), "points": all_points(D, [0, 1, 2]),
+                       "muts": [[["setroot", tree2]], [["setroot", tree]]]}
     # 3-rank trees in the quick tier: a seeded sample of the exhaustive family
     rng = random.Random(seed)
     if quick:
@@ -247,9 +283,26 @@ def gen(seed, tier):
         else:
             spec = random_spec(rng, D)
         tf = [rng.choice([None, "C", "U", "U"]) for _ in range(D)] if rng.random() < 0.6 else None
+        muts = None
+        if shape is not None and rng.random() < 0.35:
+            # rounds of in-place mutations between queries of the same Format object; the points
+            # touched are queried (as prefixes) before and after
+            muts = []
+            for _ in range(rng.choice([1, 1, 2])):
+                batch = []
+                for _ in range(rng.choice([1, 1, 2, 3])):
+                    r2 = rng.random()
+                    if r2 < 0.12:
+                        batch.append(["setroot", H.gen_tree(rng, D, n, pool, dflt)])
+                    else:
+                        L = D if r2 < 0.8 else rng.randrange(1, D + 1)
+                        path = [rng.randrange(0, n + 1) for _ in range(L)]
+                        batch.append(["ref", path, rng.choice(pool) if L == D and rng.random() < 0.8 else None])
+                muts.append(batch)
         yield {"prop": PROP, "D": D, "dflt": dflt, "t": tree, "build": build, "shape": shape, "tfmt": tf,
-               "tfmt_first": rng.random() < 0.5,
-               "spec": spec, "points": sample_points(rng, D, tree, n), "order": rng.randrange(1 << 30)}
+               "tfmt_first": rng.random() < 0.5, "muts": muts,
+               "spec": spec, "points": sample_points(rng, D, tree, n) + mut_points(muts),
+               "order": rng.randrange(1 << 30)}
 
 
 # ---------------------------------------------------------------------------------------
@@ -342,22 +395,63 @@ def _ranklists(t):
     return [[id(f) for f in r.getFibers()] for r in t.ranks]
 
 
+def _observe_state(t, ids, side):
+    """abstraction function: the tensor as it is now"""
+    root = t.getRoot()
+    by_level = {}
+    id2path = dict(_walk_ids(root, [], 0, by_level))
+    ph = {"state": H.snapshot(root), "shape": t.getShape(), "tformat": [t.getFormat(r) for r in ids]}
+    ph["ranklists"] = [[[id2path.get(id(f)), len(f.coords)] for f in r.getFibers()] for r in t.ranks]
+    # modelling precondition: the shape an uncompressed fiber reports is its rank's shape
+    ok = all(f.getShape(all_ranks=False) == ph["shape"][lvl] for lvl, fs in by_level.items() for f in fs)
+    side["pre:fiber-shape-is-rank-shape"] = side.get("pre:fiber-shape-is-rank-shape", True) and ok
+    return ph
+
+
+def _query(fmt, t, ids, points, ph, side):
+    """one round of queries against one (possibly already used) Format object"""
+    before = (copy.deepcopy(ph["state"]), _ranklists(t), t.getShape())
+    ph["root"] = fmt.getRoot()
+    ph["ranks"] = [fmt.getRank(r) for r in ids]
+    ph["tensor"] = fmt.getTensor()
+    fib, sub = [], []
+    for p in points:
+        try:
+            fib.append(fmt.getFiber(*p))
+        except AssertionError:
+            fib.append(None)
+        try:
+            sub.append(fmt.getSubTree(*p))
+        except AssertionError:
+            sub.append(None)
+    ph["fiber"], ph["subtree"] = fib, sub
+    ph["tensor2"] = fmt.getTensor()
+    after = (H.snapshot(t.getRoot()), _ranklists(t), t.getShape())
+    side["tensor_unchanged"] = side.get("tensor_unchanged", True) and before[0] == after[0] and before[2] == after[2]
+    side["rank_lists_unchanged"] = side.get("rank_lists_unchanged", True) and before[1] == after[1]
+
+
+def apply_mutations(t, case, batch):
+    """in-place changes of the tensor through its public API (the Format object stays the same)"""
+    for op in batch:
+        if op[0] == "ref":          # getPayloadRef(*path) creates what is missing; optional `<<= v`
+            ref = t.getPayloadRef(*op[1])
+            if op[2] is not None:
+                ref <<= op[2]
+        elif op[0] == "setroot":    # a different tree becomes the tensor's root
+            t.setRoot(H.build_fiber(op[1], case["D"], case["dflt"]))
+        else:
+            raise ValueError(op)
+
+
 def run(case):
     F = Format()
     D = case["D"]
     ids = RANK_IDS[:D]
     t = build_tensor(case)
     set_formats(t, case)
-    root = t.getRoot()
-    by_level = {}
-    id2path = dict(_walk_ids(root, [], 0, by_level))
-    impl = {"state": H.snapshot(root), "shape": t.getShape(), "tformat": [t.getFormat(r) for r in ids]}
-    impl["ranklists"] = [[[id2path.get(id(f)), len(f.coords)] for f in r.getFibers()] for r in t.ranks]
     side = {}
-    # modelling precondition: the shape an uncompressed fiber reports is its rank's shape
-    side["pre:fiber-shape-is-rank-shape"] = all(
-        f.getShape(all_ranks=False) == impl["shape"][lvl] for lvl, fs in by_level.items() for f in fs)
-    before = (copy.deepcopy(impl["state"]), _ranklists(t), t.getShape())
+    impl = _observe_state(t, ids, side)
     spec = {}
     if case["spec"]["root"] is not None:
         spec["root"] = _to_py(case["spec"]["root"])
@@ -379,33 +473,25 @@ def run(case):
     impl["outcome"] = "ok"
     try:
         impl["filled"] = {"root": _from_py(fmt.spec["root"]), "ranks": [_from_py(fmt.spec[r]) for r in ids]}
-        impl["root"] = fmt.getRoot()
-        impl["ranks"] = [fmt.getRank(r) for r in ids]
-        impl["tensor"] = fmt.getTensor()
-        fib, sub = [], []
-        for p in case["points"]:
-            try:
-                fib.append(fmt.getFiber(*p))
-            except AssertionError:
-                fib.append(None)
-            try:
-                sub.append(fmt.getSubTree(*p))
-            except AssertionError:
-                sub.append(None)
-        impl["fiber"], impl["subtree"] = fib, sub
-        impl["tensor2"] = fmt.getTensor()
+        _query(fmt, t, ids, case["points"], impl, side)
         side["getters"] = all(
             fmt.getCBits(r) == fmt.spec[r]["cbits"] and fmt.getPBits(r) == fmt.spec[r]["pbits"] and
             fmt.getFHBits(r) == fmt.spec[r]["fhbits"] and fmt.getRHBits(r) == fmt.spec[r]["rhbits"] and
             fmt.getFormat(r) == fmt.spec[r]["format"] and fmt.getLayout(r) == fmt.spec[r]["layout"] and
             fmt.getElem(r, "coord") == fmt.spec[r]["cbits"] and fmt.getElem(r, "payload") == fmt.spec[r]["pbits"] and
             fmt.getElem(r, "elem") == fmt.spec[r]["cbits"] + fmt.spec[r]["pbits"] for r in ids)
+        if case.get("muts"):
+            # the SAME Format object is asked again after each batch of in-place mutations
+            phases = [{k: v for k, v in impl.items() if k not in ("outcome", "filled")}]
+            for batch in case["muts"]:
+                apply_mutations(t, case, batch)
+                ph = _observe_state(t, ids, side)
+                _query(fmt, t, ids, case["points"], ph, side)
+                phases.append(ph)
+            impl = {"outcome": "ok", "filled": impl["filled"], "phases": phases}
     except Exception as e:  # a crash on a legal input is an observation
         impl["outcome"] = H.err_class(e)
         side["no_exception:" + H.err_class(e)] = False
-    after = (H.snapshot(t.getRoot()), _ranklists(t), t.getShape())
-    side["tensor_unchanged"] = before[0] == after[0] and before[2] == after[2]
-    side["rank_lists_unchanged"] = before[1] == after[1]
     case["impl"] = impl
     case["side"] = side
     return case
@@ -445,7 +531,13 @@ def signature(case, verdict, failed):
     if "spec" in failed:
         why = verdict.get("why", "").replace("spec fails on: ", "").split(", ")
         first = [w for w in ORDER if w in why]
-        parts.append("spec:" + (first[0] if first else (why[0] or "?")))
+        later = [w for w in ORDER if any(x.split("@")[0] == w and "@" in x for x in why)]
+        if first:
+            parts.append("spec:" + first[0])
+        elif later:     # every clause held on the first round of queries, fails only when the same
+            parts.append("spec:" + later[0] + ":after-in-place-mutation")   # Format object is asked again
+        else:
+            parts.append("spec:" + (why[0] or "?"))
         if "MIRROR_BROKEN" in verdict.get("tags", []):
             parts.append("mirror-broken")
     rest = sorted(f for f in failed if f != "spec")
@@ -485,6 +577,12 @@ def shrink_candidates(case):
         for j in range(len(e or [])):
             e2 = e[:j] + e[j + 1:]
             yield with_(spec={"root": sp["root"], "ranks": sp["ranks"][:i] + [e2] + sp["ranks"][i + 1:]})
+    muts = case.get("muts") or []
+    for i in range(len(muts)):
+        yield with_(muts=muts[:i] + muts[i + 1:])
+        for j in range(len(muts[i])):
+            if len(muts[i]) > 1:
+                yield with_(muts=muts[:i] + [muts[i][:j] + muts[i][j + 1:]] + muts[i + 1:])
     if case.get("tfmt"):
         yield with_(tfmt=None)
         for i, f in enumerate(case["tfmt"]):
@@ -502,4 +600,6 @@ def extra_evidence(results):
         o = (c.get("impl") or {}).get("outcome")
         outcomes[o] = outcomes.get(o, 0) + 1
     return {"builds": builds, "outcomes": outcomes,
-            "queries_compared": sum(2 * len(c["points"]) + c["D"] + 3 for c, _ in results)}
+            "queries_compared": sum((2 * len(c["points"]) + c["D"] + 3) * (1 + len(c.get("muts") or []))
+                                    for c, _ in results),
+            "cases_with_requery_after_mutation": sum(1 for c, _ in results if c.get("muts"))}
